@@ -474,6 +474,33 @@ theorem no_panic_agileDecrypt (i : AgIn) : (agileDecrypt i).isPanic = false := b
     · rename_i h1 h2; exfalso; apply h2; simp [sliceOK]; omega
     · exact no_panic_pkgLoop' i hk.2.1 _ 0
 
+/-! ## basic-string unescaping and the standard verifier -/
+
+/-- `bstrUnmarshal` slices the string only at the positions the regular expression matched -/
+theorem guards_bstr :
+    Facts.C14.index_bstrUnmarshal = ["s[cursor:match[0]]", "match[0]", "s[match[0]:match[1]]", "match[0]", "match[1]",
+      "match[1]", "match[1]", "s[match[0]+2:match[1]-1]", "match[0]", "match[1]", "s[cursor:]"] ∧
+    Facts.C14.conds_bstrUnmarshal = ["subStr == \"_x005F_\"", "bstrExp.MatchString(subStr)", "cursor < l"] := by decide
+
+/-- clause "any byte sequence … never panic" for every string payload (shared strings, inline strings,
+cached formula text): for EVERY byte string — any number of escapes, truncated escapes (`_`, `_x`, `_x0`,
+… `_x000A` at the end), adjacent and overlapping candidates — every slice `bstrUnmarshal` takes is in range -/
+theorem no_panic_bstr (s : List Char) : (bstrUnmarshal s).isPanic = false :=
+  bstrSegs_no_panic s.length _ 0 (Nat.zero_le _) (bstrMatches_chain s _ 0)
+
+/-- `standardEncryptionVerifier` behind the per-algorithm size table of `standardDecrypt`: for EVERY length
+of the verifier block and every algorithm id (AES: 72 bytes needed, anything else is RC4: 60) the slices
+`blob[:4] … blob[40:60]` / `blob[40:72]` are in range or the block is rejected first -/
+theorem no_panic_standard_verifier (vlen algID keySize pkgLen pkgSize : Nat) (h : 8 ≤ pkgLen) :
+    (sdVerifier vlen algID keySize pkgLen pkgSize).isPanic = false :=
+  no_panic_sdVerifier vlen algID keySize pkgLen pkgSize h
+
+/-- … and a block shorter than the table says is an error, never a slice -/
+theorem standard_verifier_rejects_short (vlen algID keySize pkgLen pkgSize : Nat)
+    (h : vlen < (if isAES algID then 72 else 60)) : sdVerifier vlen algID keySize pkgLen pkgSize = .err := by
+  unfold sdVerifier verifierSize
+  rw [if_pos h]
+
 /-! ## unzip limits -/
 
 /-- the size check of `ReadZipReader` is the first thing done with an entry, before the branches that
@@ -513,6 +540,45 @@ theorem unzip_limit_no_overflow (sizes : List Int) (limit : Int) (h0 : 0 ≤ lim
 theorem unzip_overflow_rejected :
     zipAccountI [4611686018427387904, 4611686018427387904] 0 9223372036854775807 = false := by
   decide +kernel
+
+/-- clause "allocate out of proportion": `readFile` reserves `make([]byte, 0, declaredSize)` per entry — in an
+accepted package every declared size is itself within `UnzipSizeLimit` -/
+theorem zip_entry_alloc_bounded (sizes : List Nat) (limit xmlLimit : Nat) (hx : xmlLimit ≤ limit)
+    (h : openLimits sizes limit xmlLimit = .ok ()) : ∀ s ∈ sizes, s ≤ limit := by
+  have hs := (unzip_limit_exact sizes limit xmlLimit hx).mp h
+  intro s hm
+  have := mem_le_sum sizes s hm
+  omega
+
+/-- the append loop of `checkSheetR0` (`for c := columns; c < col; c++ { append(…, xlsxC{}) }`) makes a row
+exactly `col` cells wide when it was narrower and leaves it alone otherwise; `col` comes from
+`CellNameToCoordinates`, so a row never grows beyond MaxColumns by padding -/
+theorem pad_width_bounded (cells : List Cell) (col : Int) (hc : col ≤ (Facts.MaxColumns : Int)) :
+    (padTo cells col.toNat).length ≤ Facts.MaxColumns ∨ (padTo cells col.toNat).length = cells.length := by
+  rw [padTo_length_le]
+  split
+  · left; omega
+  · right; rfl
+
+/-- the result accounting of `GetRows` is the one the model transcribes -/
+theorem guards_getRows :
+    "emptyRows := cur - maxVal - 1; emptyRows > 0" ∈ Facts.C14.conds_GetRows ∧ "len(row) > 0" ∈ Facts.C14.conds_GetRows ∧
+    Facts.C14.index_GetRows = ["results[:maxVal]", "results[:maxVal]", "results[:maxVal]"] := by decide
+
+/-- `GetRows`: for every sequence of empty / non-empty rows the iterator delivers, `make([][]string,
+emptyRows)` is never negative, `results[:maxVal]` is in range, and the number of rows returned is at most
+the number of iterations (which `Rows.Next` bounds by TotalRows) -/
+theorem no_panic_getRows (iters : List Bool) :
+    (getRows iters).isPanic = false ∧ ∀ n, getRows iters = .ok n → n ≤ iters.length := by
+  unfold getRows
+  obtain ⟨l, m, e, a, c, d⟩ := getRowsLoop_inv iters 0 0 0 (by simp) (Int.le_refl _) (Int.le_refl _)
+  rw [e]
+  simp only [Outcome.bind]
+  rw [if_pos ⟨c, by omega⟩]
+  refine ⟨rfl, ?_⟩
+  intro n hn
+  simp only [Outcome.ok.injEq] at hn
+  omega
 
 /-! ## non-vacuity -/
 
